@@ -292,6 +292,8 @@ fn main() {
 }
 
 const TERMS: [&str; 3] = ["\n", "\r\n", ""];
+/// Terminators for the random histories: `with_ending` takes any string (3, 4, 5, 9 and 17 bytes, multi-byte characters).
+const TERMS_RANDOM: [&str; 10] = ["\n", "\r\n", "", "\n", ";", "\r\n\r\n", "<EOL>", "\u{2028}", "-=#é#=-\n", "0123456789abcdef\n"];
 
 fn metric_bytes(idx: usize, len: usize) -> Vec<u8> {
     vec![b'a' + (idx % 26) as u8; len]
@@ -497,7 +499,7 @@ fn random_case(j: &mut Judge, r: &mut Rng, faults: bool, replay: Vec<(&str, Stri
         1 => *r.pick(&[16usize, 64, 512, 1432, 1500]),
         _ => r.range(1, 300) as usize,
     };
-    let term = *r.pick(&TERMS);
+    let term = *r.pick(&TERMS_RANDOM);
     let nops = match r.below(6) {
         0 => r.range(200, max_long.max(200)),
         _ => r.range(10, 120),
@@ -747,6 +749,21 @@ impl<S: MetricSink> MetricSink for Counting<S> {
     }
 }
 
+/// The same sink behind two clients.
+struct SharedSink<S: MetricSink>(Arc<S>);
+
+impl<S: MetricSink> MetricSink for SharedSink<S> {
+    fn emit(&self, m: &str) -> io::Result<usize> {
+        self.0.emit(m)
+    }
+    fn flush(&self) -> io::Result<()> {
+        self.0.flush()
+    }
+    fn stats(&self) -> cadence::SinkStats {
+        self.0.stats()
+    }
+}
+
 /// W5 under write failures: a buffered spy sink whose channel holds 1-2 datagrams (a full channel refuses the write) behind
 /// a client, or behind a queuing sink behind a client. Random emit / flush / drain histories; the one rule judged here
 /// is C06's unconditional one - whatever failed before: when a flush through the client returns Ok, every metric the
@@ -934,6 +951,9 @@ fn mode_delegate(j: &mut Judge) {
         let counting = Counting { inner: spy, done: done.clone(), hold: hold.clone(), entered: entered.clone(), inner_ok: Arc::new(AtomicU64::new(0)) };
         // every way of building the queuing wrapper must delegate flush (and must not lose it behind an error handler)
         let qvariant = r.below(4);
+        // a SECOND client shares the sink (a clone of the queuing sink, or an Arc around the buffered sink) and goes away
+        // in the middle of the history: that is neither a flush nor the sink's drop - nothing may be written then
+        let mut second: Option<StatsdClient> = None;
         let client = if through_queue {
             let q = match qvariant {
                 0 => QueuingMetricSink::from(counting),
@@ -941,9 +961,12 @@ fn mode_delegate(j: &mut Judge) {
                 2 => QueuingMetricSink::builder().with_error_handler(|_e| {}).build(counting),
                 _ => QueuingMetricSink::builder().with_capacity(4096).with_error_handler(|_e| {}).build(counting),
             };
+            second = Some(StatsdClient::from_sink("other", q.clone()));
             StatsdClient::from_sink("", q)
         } else {
-            StatsdClient::from_sink("", counting)
+            let shared = Arc::new(counting);
+            second = Some(StatsdClient::from_sink("other", SharedSink(shared.clone())));
+            StatsdClient::from_sink("", SharedSink(shared))
         };
         let nops = r.range(3, 40) as usize;
         let mut steps = Vec::new();
@@ -961,7 +984,22 @@ fn mode_delegate(j: &mut Judge) {
             }
             true
         };
+        let second_goes_at = r.usize_below(nops);
         for k in 0..nops {
+            if k == second_goes_at {
+                if let Some(c2) = second.take() {
+                    let res = match panics::guard(move || drop(c2)) {
+                        Ok(()) => Res::OkUnit,
+                        Err(p) => Res::Panicked(p),
+                    };
+                    let mut attempts = Vec::new();
+                    while let Ok(b) = rx.try_recv() {
+                        attempts.push(Attempt { bytes: Some(b), out: AOut::Ok });
+                    }
+                    j.rep.obs("clients_sharing_the_sink_dropped_mid_history", 1);
+                    steps.push(Step { op: Op::Query, attempts, res });
+                }
+            }
             if r.chance(1, 6) {
                 let res = match panics::guard(|| client.flush()) {
                     Ok(Ok(())) => Res::OkUnit,
@@ -1033,6 +1071,7 @@ fn mode_delegate(j: &mut Judge) {
                 }
             }
         }
+        drop(second.take());
         if !hist_ok {
             continue;
         }
